@@ -9,6 +9,7 @@ from __future__ import annotations
 
 import importlib
 import json
+import re
 import os
 import sys
 import time
@@ -265,7 +266,7 @@ def match_known(v, known):
         if k.get("obligation") and k["obligation"] == v["name"]:
             return k
         if k.get("check_prefix") and str(v["name"]).startswith(k["check_prefix"]):
-            if all(m in blob for m in k.get("input_contains", [])):
+            if all(m in blob for m in k.get("input_contains", [])) and all(re.search(rx, blob) for rx in k.get("input_regex", [])):
                 return k
     return None
 
